@@ -16,6 +16,9 @@ pub use indicators::EnergyIndicators;
 pub use props::EnergyProps;
 pub use radiation::ray_dir_to_sun;
 pub use raytracing::{Bounded, Intersectable, Ray, AABB, BVH};
+// Verification hook (off by default): node and occluder types for an external harness
+#[cfg(feature = "cteenergymodel_verif")]
+pub use raytracing::{BVHNode, Occluder};
 
 use crate::Model;
 
